@@ -22,7 +22,7 @@ PROP = Property(
 )
 
 META = {
-    "text": "Proof: for every well-formed protocol object the model of convert.go satisfies FromProto(ToProto x) = x (signature for three schemes, partial cert with recomputed signer, QC, TC, AggQC, SyncInfo, TimeoutMsg with id := peer, block content, proposal with proposer := peer), so hash, bytes-to-sign, participants and every verification verdict coincide (derived_equal); fetched_block_has_hash for the RequestBlock reply filter. Tie: generated objects (every optional part present/absent, empty and non-empty batches, 1..n signers, three schemes, extreme views 2^31..2^64-1, ids 0 / 2^32-1, timestamps before 1970 / after 2262 / nanosecond edges) go through ToProto, the real proto.Marshal/Unmarshal and FromProto in Go; the canonical description of the decoded object is compared with the model's and an oracle requires hash/bytes/participants/verdict to be unchanged. Also: aggregate QCs with an empty QC map (present with view and signature, must stay present), timestamps outside timestamppb's valid range (still the time the sender hashed), and for the clause 'a block fetched by hash is the block that hash names' the block-store scripts in which blocks come from peers through the real quorum function (honest, silent and lying replies in every order). BYTES THAT ARE HASHED AND SIGNED (Model/Bytes.lean, Props/C12Bytes): Multi.ToBytes, QuorumCert.ToBytes, PartialCert.ToBytes, TimeoutMsg.ToBytes and Block.ToBytes (with the protobuf form of the command batch) are modelled byte for byte and run against the real methods on objects given field by field (the bytes family: random objects with extreme ids/views/lengths, and for every place where two variable-length fields meet the pairs of objects that read the same when the boundary is not written); the oracle requires different objects to have different bytes, a different block a different hash. Writing that model found that a block's hash did not determine the block (repair 6e1f39b).",
+    "text": "Proof: for every well-formed protocol object the model of convert.go satisfies FromProto(ToProto x) = x (signature for three schemes, partial cert with recomputed signer, QC, TC, AggQC, SyncInfo, TimeoutMsg with id := peer, block content, proposal with proposer := peer), so hash, bytes-to-sign, participants and every verification verdict coincide (derived_equal); fetched_block_has_hash for the RequestBlock reply filter. Tie: generated objects (every optional part present/absent, empty and non-empty batches, 1..n signers, three schemes, extreme views 2^31..2^64-1, ids 0 / 2^32-1, timestamps before 1970 / after 2262 / nanosecond edges) go through ToProto, the real proto.Marshal/Unmarshal and FromProto in Go; the canonical description of the decoded object is compared with the model's and an oracle requires hash/bytes/participants/verdict to be unchanged. Also: aggregate QCs with an empty QC map (present with view and signature, must stay present), timestamps outside timestamppb's valid range (still the time the sender hashed), and for the clause 'a block fetched by hash is the block that hash names' the block-store scripts in which blocks come from peers through the real quorum function (honest, silent and lying replies in every order). BYTES THAT ARE HASHED AND SIGNED (Model/Bytes.lean, Props/C12Bytes): Multi.ToBytes, QuorumCert.ToBytes, PartialCert.ToBytes, TimeoutMsg.ToBytes and Block.ToBytes (with the protobuf form of the command batch) are modelled byte for byte and run against the real methods on objects given field by field (the bytes family: random objects with extreme ids/views/lengths, and for every place where two variable-length fields meet the pairs of objects that read the same when the boundary is not written); the oracle requires different objects to have different bytes, a different block a different hash. Writing that model found that a block's hash did not determine the block (repair 6e1f39b). Theorems (Props/C12Bytes): le_injective, multiBytes_injective, qcBytes_injective (within one signature scheme), tmoBytes_injective, varint_append_injective, cmdBytes_injective, batchBytes_injective, blockBytes_injective and block_hash_determines_block (well-formed blocks, given no SHA-256 collision on the two byte strings): the content-addressing hypothesis of C01/C06 reduced to collision resistance; the old layouts' ambiguities kept as witnesses.",
     "note": "Trusted: Lean kernel, protobuf library, timestamppb, point compression, SHA-256; symbolic naming of signature bytes and hashes. The serviceImpl handlers themselves (peer id from gRPC metadata) are exercised under C10; here their id assignment is modelled.",
     "technique": "Lean 4 round-trip theorems over a model of the proto shapes + differential correspondence through real protobuf",
 }
